@@ -32,6 +32,10 @@ func verifLeafT() verifT {
 // verifMakeT builds a struct document; only the fields named in use vary.
 func verifMakeT(use string) verifT {
 	t := verifT{S: []verifT{}, Q: []*verifT{}, L: []string{}, F: []float64{}}
+	kmax := 3 // slice lengths 0..kmax-1
+	if verifHasParam("K") {
+		kmax = verifParam("K")
+	}
 	if verifUses(use, 'a') {
 		t.A = verifNondetString(1)
 	}
@@ -43,13 +47,13 @@ func verifMakeT(use string) verifT {
 		t.P = &p
 	}
 	if verifUses(use, 's') {
-		k := verifChoose(3)
+		k := verifChoose(kmax)
 		for i := 0; i < k; i++ {
 			t.S = append(t.S, verifLeafT())
 		}
 	}
 	if verifUses(use, 'q') {
-		k := verifChoose(3)
+		k := verifChoose(kmax)
 		for i := 0; i < k; i++ {
 			if verifNondetBool() {
 				t.Q = append(t.Q, nil)
@@ -60,7 +64,7 @@ func verifMakeT(use string) verifT {
 		}
 	}
 	if verifUses(use, 'l') {
-		k := verifChoose(3)
+		k := verifChoose(kmax)
 		for i := 0; i < k; i++ {
 			c := verifNondetByte()
 			verifAssume(c < 0x80)
@@ -68,7 +72,7 @@ func verifMakeT(use string) verifT {
 		}
 	}
 	if verifUses(use, 'f') {
-		k := verifChoose(3)
+		k := verifChoose(kmax)
 		for i := 0; i < k; i++ {
 			t.F = append(t.F, verifNondetFloat64())
 		}
